@@ -72,11 +72,14 @@ fn run_case(m: &mut Monitor, frags: &[String], cap: usize, exact_alloc: bool) {
     }
 }
 
-fn gen_frags(rng: &mut Rng) -> Vec<String> {
+fn gen_frags(rng: &mut Rng, long: bool) -> Vec<String> {
     let n = rng.urange(0, 6);
+    // one text in 32 (native and ASan engines) carries a fragment that crosses 255/256/512 bytes
+    let long_at = if long && n > 0 && rng.below(32) == 0 { rng.usize(n) } else { usize::MAX };
     (0..n)
-        .map(|_| {
+        .map(|k| {
             let l = match rng.below(5) {
+                _ if k == long_at => rng.urange(200, 600),
                 0 => 0,
                 1 => 1,
                 2 => rng.urange(2, 9),
@@ -97,7 +100,7 @@ fn main() {
     let args = Args::parse();
     let mut m = Monitor::new(
         "C47",
-        "texts = 0..6 Display fragments (empty, 1-byte, multi-byte UTF-8) x every capacity 0..=len+8, buffer carved from a poisoned allocation with guard zones wider than the text on each side and also as an exact-size allocation (for Miri/ASan); non-trivial = distinct (fragment lengths, capacity) with >=2 fragments",
+        "texts = 0..6 Display fragments (empty, 1-byte, multi-byte UTF-8; outside Miri one text in 32 has a 200..600-byte fragment) x every capacity 0..=len+8, buffer carved from a poisoned allocation with guard zones wider than the text on each side and also as an exact-size allocation (for Miri/ASan); non-trivial = distinct (fragment lengths, capacity) with >=2 fragments",
     )
     .min(50)
     .require("fits", "success branch")
@@ -111,7 +114,8 @@ fn main() {
     }
     let texts = args.n(3_000, 60_000);
     for t in 0..texts {
-        let frags = gen_frags(&mut rng);
+        let frags = gen_frags(&mut rng, !args.engine.starts_with("miri"));
+        m.max("max_text_len", frags.iter().map(String::len).sum::<usize>() as u64);
         let len: usize = frags.iter().map(String::len).sum();
         for cap in 0..=len + 8 {
             // exact-size allocations only where the engine turns an out-of-bounds write into a
